@@ -676,6 +676,28 @@ def r08g(ctx, rep, rule="R08g"):
         rep.ok(rule, key, "the BigInt / BigInt fallback converts the exact quotient (no division of two converted bignums)", [fn.span])
 
 
+def r08h(ctx, rep, rule="R08h"):
+    facts = ctx["facts"]
+    rep.rule(rule, "zero converts in every representation: Number::to_usize / to_u64 / to_u32 (the conversions behind indices, "
+             "sizes and expt's exponent) admit non-negative values; their arms must not guard with the strict Signed::is_positive, "
+             "which is false for zero — the Fixnum arm admits 0 (`>= 0` or a checked conversion), so a zero carried as a bignum "
+             "would be rejected where the fixnum 0 is accepted, and (expt 7 (- (expt 2 64) (expt 2 64))) is an error instead of 1.")
+    n = 0
+    for nm in ("to_usize", "to_u64", "to_u32"):
+        f = need(rep, rule, facts, "marwood::number::Number::" + nm)
+        if f is None:
+            continue
+        n += 1
+        strict = [t for bb, t in f.calls() if (t.get("fnargs") or callee(t) or "").endswith("::is_positive")]
+        key = "%s|%s" % (rule, nm)
+        if strict:
+            rep.fail(rule, key, "Number::%s guards an arm with is_positive(): zero in that representation does not convert, while the "
+                     "fixnum 0 does — the answer depends on which representation carried the operand" % nm, [strict[0]["loc"]])
+        else:
+            rep.ok(rule, key, "Number::%s uses no strict sign test" % nm, [f.span])
+    rep.floor(rule, "conversions to unsigned", n, 3)
+
+
 def r08c(ctx, rep):
     facts = ctx["facts"]
     rep.rule("R08c", "derived operations are built from the primitive ones: Number::modulo is expressed through the "
@@ -1143,6 +1165,18 @@ def r_fold_adjacent(ctx, rep, rule, modules, floor):
                     c3 = op_const(st["rv"].get("a")) if st["rv"]["k"] == "use" else None
                     if c3 is not None and st["lhs"]["ty"] == "bool" and not st["lhs"]["p"] and st["lhs"]["l"] in f.names and c3.get("int") in (0, False) and "bool" in str(c3.get("ty", "bool")):
                         falsify.add(b3)
+            # the answer is a conjunction: inside the loop the result flag is only ever cleared
+            computed = []
+            for b3 in body:
+                for st in f.blocks[b3]["stmts"]:
+                    if st["lhs"]["ty"] == "bool" and not st["lhs"]["p"] and st["lhs"]["l"] in f.names and f.names[st["lhs"]["l"]] in ("result", "res", "ok", "all"):
+                        c3 = op_const(st["rv"].get("a")) if st["rv"]["k"] == "use" else None
+                        if c3 is None or c3.get("int") not in (0, False):
+                            computed.append(st)
+            (rep.fail if computed else rep.ok)(
+                rule, key + "|conjunction", "%s assigns its result flag a computed value inside the fold: the answer is then the outcome "
+                "of one pair (the last compared) instead of the conjunction over all adjacent pairs — (char<? #\\a #\\z #\\b) is #t" % f.short
+                if computed else "%s only ever clears its result flag inside the fold" % f.short, [(computed[0] if computed else t)["loc"]])
             skipping = []
             for src, h in loops:
                 if f.dominates(bb, src):
